@@ -667,7 +667,16 @@ func parseNumberLiteral(literal string) (value interface{}, err error) { //nolin
 	}
 	_, err = strconv.ParseInt(literal, 0, 64)
 
-	parseIntErr := err // Save this first error, just in case
+	if errors.Is(err, strconv.ErrRange) && len(literal) > 1 && literal[0] == '0' {
+		// A hex or legacy octal integer beyond int64 (e.g. 0x8000000000000000):
+		// the exact value, rounded once.
+		integer, ok := new(big.Int).SetString(literal, 0)
+		if !ok {
+			return nil, errors.New("illegal numeric literal")
+		}
+		value, _ := new(big.Float).SetInt(integer).Float64()
+		return value, nil
+	}
 
 	value, err = strconv.ParseFloat(literal, 64)
 	if err == nil {
@@ -675,22 +684,6 @@ func parseNumberLiteral(literal string) (value interface{}, err error) { //nolin
 	} else if errors.Is(err, strconv.ErrRange) {
 		// Infinity, etc.
 		return value, nil
-	}
-
-	// TODO(steve): Fix as this is assigning to err so we know the type.
-	// Need to understand what this was trying to do?
-	err = parseIntErr
-
-	if errors.Is(err, strconv.ErrRange) {
-		if len(literal) > 2 && literal[0] == '0' && (literal[1] == 'X' || literal[1] == 'x') {
-			// Could just be a very large number (e.g. 0x8000000000000000)
-			integer, ok := new(big.Int).SetString(literal[2:], 16)
-			if !ok {
-				return nil, errors.New("illegal numeric literal")
-			}
-			value, _ := new(big.Float).SetInt(integer).Float64()
-			return value, nil
-		}
 	}
 
 	return nil, errors.New("illegal numeric literal")
